@@ -22,6 +22,7 @@ use pumpkin_solver::constraints::Constraint;
 use pumpkin_solver::constraints::NegatableConstraint;
 use pumpkin_solver::options::*;
 use pumpkin_solver::predicates::Predicate;
+use pumpkin_solver::predicate;
 use pumpkin_solver::proof::ProofLog;
 use pumpkin_solver::termination::TerminationCondition;
 use pumpkin_solver::variables::AffineView;
@@ -580,6 +581,21 @@ fn post_inner(
                 "harness: add_clause cannot be reified/negated"
             );
             solver.add_clause(ps.iter().map(|p| to_predicate(ctx.ids[p.var], p)))
+        }
+        Con::ViewClause(ps) => {
+            assert!(
+                matches!(mode, Mode::Post) && negations == 0,
+                "harness: add_clause cannot be reified/negated"
+            );
+            solver.add_clause(ps.iter().map(|(v, k, c)| {
+                let view = ctx.ids[v.var].scaled(v.a).offset(v.b);
+                match k {
+                    PredKind::Ge => predicate![view >= *c],
+                    PredKind::Le => predicate![view <= *c],
+                    PredKind::Eq => predicate![view == *c],
+                    PredKind::Ne => predicate![view != *c],
+                }
+            }))
         }
         Con::LitClause(ls) => apply_neg(
             solver,
